@@ -214,7 +214,7 @@ class ValidationContext:
 
     def raise_or_collect(self, validation: str, error: XMLSchemaValidationError) \
             -> XMLSchemaValidationError:
-        if error.elem is None and self.elem is not None:
+        if error.elem is None and error.path is None and self.elem is not None:
             error.elem = self.elem
 
         if self.attribute is not None and error.reason is not None \
